@@ -104,6 +104,24 @@ def work(task):
         seeds = [11, 12]
         keys = [(text, op, s) for op in dict.fromkeys(OPS) if op not in ("disturb", "reparse") for s in (seeds if op in ("generate", "aggen", "typing") else [0])]
         base = dict(zip(map(tuple, keys), fresh_baseline([list(k) for k in keys])))
+        # exhaustive part: every ordered pair of observing operations on one freshly parsed instance (all histories of length 2)
+        if task.get("pairs"):
+            obs_ops = [op for op in dict.fromkeys(OPS) if op not in ("disturb", "reparse")]
+            for op1 in obs_ops:
+                for op2 in obs_ops:
+                    with warnings.catch_warnings():
+                        warnings.simplefilter("ignore")
+                        o = Molecule(text)
+                    hist = [[op1, 0, 11 if op1 in ("generate", "aggen", "typing") else 0], [op2, 0, 12 if op2 in ("generate", "aggen", "typing") else 0]]
+                    for op, _, sd in hist:
+                        got = json.loads(json.dumps(op_result(o, op, sd)))
+                        evals += 1
+                        if got != base[(text, op, sd)]:
+                            viol.append({"key": f"C10/history/post[{op}-equals-fresh-process-baseline]",
+                                         "clause": "the same string and seed give the same result whatever was parsed, generated, printed or typed before, on whichever instance",
+                                         "detail": {"history": hist, "got": str(got)[:200], "fresh": str(base[(text, op, sd)])[:200]}, "input": {"text": text}})
+                            break
+                    distinct.add((text, tuple(map(tuple, hist))))
         for h in range(task["histories"]):
             hist = []
             for step in range(task["length"]):
@@ -149,10 +167,13 @@ def run(tier="quick", seed=0):
         keep = [t for t in texts if "|3 0 1 0|" in t or "|0 1 3 0|" in t or "schulz_zimm(300" in t]
         rest = [t for t in texts if t not in keep]
         texts = keep + rng.sample(rest, 14)
-    tasks = [{"texts": [t], "seed": seed * 100 + i, "histories": 3 if tier == "quick" else 12, "length": 6 if tier == "quick" else 10} for i, t in enumerate(texts)]
+    keep_set = {t for t in texts if "|3 0 1 0|" in t or "|0 1 3 0|" in t or "schulz_zimm(300" in t or "|9 1 0 0|" in t}
+    tasks = [{"texts": [t], "seed": seed * 100 + i, "histories": 3 if tier == "quick" else 12, "length": 6 if tier == "quick" else 10,
+              "pairs": t in keep_set or tier == "thorough"} for i, t in enumerate(texts)]
     res = harness.run_tasks("monitor.drive_C10", "work", tasks, timeout=900 if tier == "quick" else 3600)
     out = harness.merge(res, rule="random histories of {print, plain print, generable, generate(seed), reaction graph, stochastic atom graph, atom-graph generation(seed), "
-                        "typing(seed), disturb the global generators, re-parse} on two instances of one string; each result compared with a fresh-process baseline. "
+                        "typing(seed), disturb the global generators, re-parse} on two instances of one string, and ALL ordered pairs of observing operations on one instance for the "
+                        "strings that carry transition lists / Schulz-Zimm blocks; each result compared with a fresh-process baseline. "
                         "distinct = (string, history)")
     out["assumptions"] = ["bounded layer: random histories of bounded length on the enumerated strings",
                           "conformer coordinates (EmbedMolecule is randomly seeded) are not part of the compared outputs"]
